@@ -133,9 +133,19 @@ func checkErrDrop(r *Run, p *Prog, rule string, scope func(*FuncNode) bool, min 
 				return true
 			}
 			nBranches++
+			// the failure was classified earlier in the branch: "if !errors.Is(err, X) {
+			// return err }" hands every other class on, what is left is the one class the
+			// branch recovers from, and replacing it is the recovery
+			classified := false
 			for _, st := range ifs.Body.List {
+				if inner, isIf := st.(*ast.IfStmt); isIf && exprMentions(fn, inner.Cond, o) && len(inner.Body.List) > 0 {
+					switch inner.Body.List[len(inner.Body.List)-1].(type) {
+					case *ast.ReturnStmt, *ast.BranchStmt:
+						classified = true
+					}
+				}
 				as, ok := st.(*ast.AssignStmt)
-				if !ok {
+				if !ok || classified {
 					continue
 				}
 				for i, l := range as.Lhs {
